@@ -42,7 +42,9 @@ def gen(rnd, max_dom=3):
             fe = others[0]
         lab = rnd.random() < 0.4
         sentences.append(('choice', dict(subj=subj, slabel='X' if lab else None, verb=v, card=card, obj=obj, olabel='Y' if lab else None, foreach=fe,
-                                         modal=rnd.choice(['can', 'must']) if card[0] != 'none' else 'can')))
+                                         modal=rnd.choice(['can', 'must']) if card[0] != 'none' else 'can',
+                                         # the same choice written 'Whenever there is a c X, then X can/must ...' (same rule when a cardinality is given)
+                                         whenever_then=bool(lab and fe is None and card[0] != 'none' and rnd.random() < 0.5))))
         if fe is None:
             chosen.append((v, subj, obj))
     if not chosen:
@@ -68,7 +70,9 @@ def gen(rnd, max_dom=3):
         first = dict(subj=subj, slabel=lab(subj), neg=False, verb=v, obj=obj, olabel=lab(obj))
         body = [first] + [mk_clause(lab) for _ in range(rnd.choice([0, 0, 1]))]
         np_ = preds.pop(0)
-        sentences.append(('def', dict(subj=subj, label=first['slabel'], newpred=np_, body=body)))
+        d = dict(subj=subj, label=first['slabel'], newpred=np_, body=body)
+        d['oneof'] = pick_oneof(rnd, concepts, body)
+        sentences.append(('def', d))
     for _ in range(rnd.choice([0, 1, 1, 2])):
         lab = labels_for()
         req = rnd.random() < 0.5
@@ -87,8 +91,30 @@ def gen(rnd, max_dom=3):
         if len(intlabels) >= 2 and rnd.random() < 0.4:
             a, b = rnd.sample(intlabels, 2)
             wh = dict(left=a, phrase=rnd.choice(PHRASES), right=b)
-        sentences.append(('cons', dict(required=req, whenpart=whenpart, main=main, wh=wh)))
+        sentences.append(('cons', dict(required=req, whenpart=whenpart, main=main, wh=wh, oneof=None if wh else pick_oneof(rnd, concepts, whenpart + main))))
     return dict(concepts=concepts, sentences=sentences)
+
+
+def pick_oneof(rnd, concepts, clauses):
+    """(label, values) for ', where L is one of v1, v2' on a label of an integer-valued concept, or None"""
+    if rnd.random() > 0.3:
+        return None
+    # (with the same verb twice in the sentence the substitution's copies are printed with an extra unlinked atom 'v(_,_)': same
+    # meaning, different text; kept out of the byte-exact tie)
+    verbs = [c['verb'][0] for c in clauses]
+    if len(set(verbs)) != len(verbs):
+        return None
+    cands = []
+    for c in clauses:
+        for cname, l in ((c['subj'], c['slabel']), (c['obj'], c['olabel'])):
+            d = [x for x in concepts if x['name'] == cname][0]['dom']
+            if d[0] == 'range' and (l, d) not in cands:
+                cands.append((l, d))
+    if not cands:
+        return None
+    l, d = rnd.choice(cands)
+    pool = list(range(d[1], d[2] + 2))
+    return (l, rnd.sample(pool, min(len(pool), rnd.choice([1, 2, 2]))))
 
 
 # ------------------------------------------------------------------ rendering
@@ -125,10 +151,14 @@ def render(spec):
             ct = {'none': '', 'exactly': 'exactly %d ', 'atmost': 'at most %d ', 'atleast': 'at least %d ', 'between': 'between %d and %d '}[card[0]]
             ct = ct % tuple(card[1:]) if card[0] != 'none' else ''
             obj = ('%s ' % art(s['obj']) if card[0] == 'none' else '') + s['obj'] + (' ' + s['olabel'] if s['olabel'] else '')
-            lines.append('Every %s%s %s %s %s%s%s.' % (s['subj'], ' ' + s['slabel'] if s['slabel'] else '', s['modal'], verb_inf(s['verb']), ct, obj,
-                                                    ' for each %s' % s['foreach'] if s['foreach'] else ''))
+            if s.get('whenever_then'):
+                lines.append('Whenever there is %s %s %s, then %s %s %s %s%s.' % (art(s['subj']), s['subj'], s['slabel'], s['slabel'], s['modal'], verb_inf(s['verb']), ct, obj))
+            else:
+                lines.append('Every %s%s %s %s %s%s%s.' % (s['subj'], ' ' + s['slabel'] if s['slabel'] else '', s['modal'], verb_inf(s['verb']), ct, obj,
+                                                        ' for each %s' % s['foreach'] if s['foreach'] else ''))
         elif kind == 'def':
-            lines.append('%s %s %s is %s when %s.' % (art(s['subj']).capitalize(), s['subj'], s['label'], s['newpred'], ' and also '.join(render_clause(c) for c in s['body'])))
+            oo = ', where %s is one of %s' % (s['oneof'][0], ', '.join(str(v) for v in s['oneof'][1])) if s.get('oneof') else ''
+            lines.append('%s %s %s is %s when %s%s.' % (art(s['subj']).capitalize(), s['subj'], s['label'], s['newpred'], ' and also '.join(render_clause(c) for c in s['body']), oo))
         else:
             head = 'It is %s that ' % ('required' if s['required'] else 'prohibited')
             if s['whenpart']:
@@ -137,6 +167,8 @@ def render(spec):
                 t = ' and also '.join(render_clause(c) for c in s['main'])
             if s['wh']:
                 t += ', where %s is %s %s' % (s['wh']['left'], s['wh']['phrase'], s['wh']['right'])
+            if s.get('oneof'):
+                t += ', where %s is one of %s' % (s['oneof'][0], ', '.join(str(v) for v in s['oneof'][1]))
             lines.append(head + t + '.')
     return '\n'.join(lines) + '\n'
 
@@ -167,8 +199,14 @@ def coq_spec(spec):
                 coq_str(s['subj']), coq_opt(None if not s['slabel'] else coq_str(s['slabel'])), c_verb(s['verb']), c_card(s['card']), coq_str(s['obj']),
                 coq_opt(None if not s['olabel'] else coq_str(s['olabel'])), coq_opt(None if not s['foreach'] else coq_str(s['foreach']))))
         elif kind == 'def':
-            ss.append('(SDef %s %s %s %s)' % (coq_str(s['subj']), coq_str(s['label']), coq_str(s['newpred']), coq_list([c_clause(c) for c in s['body']])))
+            t = '(SDef %s %s %s %s)' % (coq_str(s['subj']), coq_str(s['label']), coq_str(s['newpred']), coq_list([c_clause(c) for c in s['body']]))
+            if s.get('oneof'):
+                t = '(SOneOf %s %s %s)' % (coq_str(s['oneof'][0]), coq_list([coq_z(v) for v in s['oneof'][1]]), t)
+            ss.append(t)
         else:
             wh = 'None' if not s['wh'] else '(Some {| w_left := %s; w_phrase := %s; w_right := %s |})' % (coq_str(s['wh']['left']), coq_str(s['wh']['phrase']), coq_str(s['wh']['right']))
-            ss.append('(SCons %s %s %s %s)' % (coq_bool(s['required']), coq_list([c_clause(c) for c in s['whenpart']]), coq_list([c_clause(c) for c in s['main']]), wh))
+            t = '(SCons %s %s %s %s)' % (coq_bool(s['required']), coq_list([c_clause(c) for c in s['whenpart']]), coq_list([c_clause(c) for c in s['main']]), wh)
+            if s.get('oneof'):
+                t = '(SOneOf %s %s %s)' % (coq_str(s['oneof'][0]), coq_list([coq_z(v) for v in s['oneof'][1]]), t)
+            ss.append(t)
     return '{| concepts := %s; sentences := %s |}' % (coq_list(cs), coq_list(ss))
